@@ -618,8 +618,9 @@ class _ReadTransport(_BaseTransport):
 
         # if self._reading is False:  # raise, or warn & return?
         #     raise exc.TransportError("Reading has been paused")
-        if self._closing is True:  # raise, or warn & return?
-            raise exc.TransportError("Transport is closing or has closed")
+        if self._closing is True:  # warn & return (raising would be unhandled, in the loop)
+            _LOGGER.warning("%s < Transport is closing or has closed (ignoring)", pkt)
+            return
 
         # TODO: can we switch to call_sson now QoS has been refactored?
         # NOTE: No need to use call_soon() here, and they may break Qos/Callbacks
